@@ -1158,6 +1158,13 @@ def run(ctx: C.Ctx):
         dist["sorted_site_sizes"] = {w: sorted({len(o) for (dd, ww, o) in back if ww == w}) for w in ("button polls", "ultrasonic helpers", "LCD ticks")}
     dist["sorted_cases"] = n_sorted
 
+    # ------------------------------------------------------------------ property oracle 3 + correspondence 4: one NAME, two roles,
+    # two programs, one process (every ordered pair of roles; pool sessions; parse/emit interleavings; Lang/DevSession.v fragment)
+    from harness.props import c10_roles
+    ev_roles, nt_roles, dist_roles = c10_roles.run_collisions(ctx, C, seeds[0], have_model)
+    evaluations += ev_roles
+    dist["name_collisions"] = dist_roles
+
     # ------------------------------------------------------------------ known findings
     for f in load_findings(ctx):
         if f.get("kind") == "fixed" or f.get("property") != "C10":
@@ -1181,7 +1188,7 @@ def run(ctx: C.Ctx):
     ctx.coverage.update({
         "evaluations": evaluations + n_corr + n_prom + n_sorted,
         "distinct_nontrivial": len({p["src"] for p in progs if p.get("in_guard") and (p["origin"] != "device")}
-                                   & {s["src"] for s in skels if sum(1 for _ in _iter_hoists(s.get("model0", {}))) > 0}) + multi + n_prom,
+                                   & {s["src"] for s in skels if sum(1 for _ in _iter_hoists(s.get("model0", {}))) > 0}) + multi + n_prom + nt_roles,
         "rule": "skeleton programs: templates (k = 0..6 names first assigned in an if / if-else / if-elif-else / while / for / try body, at top level, in a function, in the main loop, nested) + seeded random nested programs; device programs: random subsets of every device class with 0..6 instances, callbacks, lists, multi-signature functions, tuple swaps; mixed = both. Every program is transpiled in one subprocess per hash seed and per dictated set order (the name `set` of parser.py/emitter.py bound to a subclass iterating sorted / reverse sorted / in a keyed pseudo-random order), then in one process twice in a row, in reverse order between unrelated programs, shuffled, and (a sample) in fresh processes; sha256 of the text is compared. Non-trivial = in-guard programs that hoist at least one declaration, device programs whose sorted sites have >= 2 elements, and every dictated-order promotion case.",
         "samples": [skels[0]["src"], skels[len(skels) // 2]["src"], devs[0]["src"][:1500]],
         "distribution": dist,
